@@ -238,7 +238,9 @@ class Harness:
                     f.write(f"Require Import {imp}.\n")
                 f.write(self.preamble + "\n")
                 for k, c in enumerate(part):
-                    f.write(f"(* VERIF-CASE {c['id']} *)\n{c['goal']}\n")
+                    # the same input may be generated twice: make the statement's name unique within the file
+                    g = re.sub(r"^(\s*(?:Lemma|Theorem|Example)\s+)([A-Za-z0-9_']+)", lambda m: f"{m.group(1)}{m.group(2)}_n{c['id']}", c["goal"], count=1)
+                    f.write(f"(* VERIF-CASE {c['id']} *)\n{g}\n")
             shards.append(dict(file=name + ".v", kind="goal", ids=[c["id"] for c in part]))
         known = []
         if not a.replay:
